@@ -58,6 +58,7 @@ pub struct AInner {
     pub lead_ms: u32,
     pub buffer_ms: u32,
     pub cur_max_len: u8,
+    pub region: String,
     pub cur_single: bool,
     pub singles_seen: usize,
 }
@@ -100,7 +101,7 @@ impl<const PW: u8, const GAIN: i8> PhyRxTx for ARadio<PW, GAIN> {
         if failed {
             return Err("setup_rx fault");
         }
-        g.cur_max_len = config.rf.max_payload_len;
+        g.cur_max_len = crate::dev::ref_window_limit(&g.region, config.rf.bb.sf.factor() as u8, config.rf.bb.bw.hz(), config.rf.max_payload_len);
         g.cur_single = single_ms.is_some();
         if single_ms.is_some() && g.conts.front() == Some(&ContItem::End) {
             g.conts.pop_front();
@@ -286,6 +287,7 @@ impl<const PW: u8, const GAIN: i8, const N: usize> ACore<PW, GAIN, N> {
             lead_ms: cfg.offset_ms.unsigned_abs(),
             buffer_ms: cfg.duration_ms.min(cfg.offset_ms.unsigned_abs()),
             cur_max_len: 0,
+            region: cfg.region.clone(),
             cur_single: false,
             singles_seen: 0,
         }));
